@@ -32,6 +32,9 @@ theorem parse_fmt (id out : Hash) (size t : Int) (hs0 : 0 ≤ size) (hs1 : size 
     parseEntry id (fmtEntry id out size t) = .ok ⟨out, size, t⟩ :=
   Cache.parse_fmt id out size t hs0 hs1 ht0 ht1
 
+/-- the instance C13's examples refer to. -/
+example : exEntryParses := parse_fmt _ _ _ _ (by decide) (by decide) (by decide) (by decide)
+
 example : parseEntry id1 (fmtEntry id1 id2 0 (2 ^ 63 - 1)) = .ok ⟨id2, 0, 2 ^ 63 - 1⟩ :=
   parse_fmt _ _ _ _ (by decide) (by decide) (by decide) (by decide)
 
